@@ -319,6 +319,7 @@ def run(ctx):
                 except Exception as e:
                     fail(f"exception-masked-reused-{name}-{type(e).__name__}", f"{name} raised {type(e).__name__}: {e}", case)
     ctx.streams["mask, reused backend, changing photon number"] = len(flat)
+    ctx.log("mask streams done")
 
     # ------------------------------------------------------------ one long-lived engine, circuit and input changing
     # (the same engine object is given another circuit of the same size, the same input again, another input, ...;
@@ -327,6 +328,7 @@ def run(ctx):
     for c in circs:
         by_m.setdefault(c.m, []).append(c)
     hist = []
+    _prof = {}
     for i in range(ctx.n(30, 300)):
         r = rng.fork(("history", i))
         m = r.choice([k for k, v in by_m.items() if len(v) >= 2])
@@ -342,14 +344,18 @@ def run(ctx):
     pairs = sorted({(hi, ci, si) for hi, (cs, ins, steps) in enumerate(hist) for ci, si, _ in steps})
     mouts = ctx.model.run([(20, [hist[hi][0][ci].m, hist[hi][0][ci].U, hist[hi][1][si]]) for hi, ci, si in pairs])
     mexp = {k: [(tuple(e[0]), un_qi(e[1]), e[2]) for e in o] for k, o in zip(pairs, mouts)}
+    ctx.log(f"history stream: {len(pairs)} model answers")
     for hi, (cs, ins, steps) in enumerate(hist):
         built_cs = [built.get(id(c)) or c.build() for c in cs]
-        names = ["Naive", "SLOS", "SLAP"] + (["MPS"] if all(c.mps_ok for c in cs) else []) + ["Stepper", "Stepper(SLAP)"]
+        names = ["Naive", "SLOS", "SLAP"] + (["MPS"] if all(c.mps_ok for c in cs) else []) + (
+            ["Stepper", "Stepper(SLAP)"] if hi < ctx.n(5, 60) else [])       # the step-by-step simulator is slow
         case0 = {"circuits": [c.describe() for c in cs], "inputs": ins}
         ctx.case(["history", [gen.qmat_key(c.U) for c in cs], ins, steps], True, case0)
         ctx.count("history")
         for name in names:
             tol = 1e-6 if name == "MPS" else (5e-6 if name.startswith("Stepper") else 1e-9)
+            import time as _t
+            _t0 = _t.time()
             try:
                 if name == "Stepper":
                     b = Stepper()
@@ -415,7 +421,9 @@ def run(ctx):
                         break
             except Exception as e:
                 fail(f"exception-history-{name}-{type(e).__name__}", f"{name} raised {type(e).__name__}: {e}", case0)
+            _prof[name] = _prof.get(name, 0) + _t.time() - _t0
     ctx.streams["one long-lived engine, circuit and input changing"] = len(hist)
+    ctx.log("history stream time per engine: " + str({k: round(v, 1) for k, v in _prof.items()}))
 
     sample = [(21, [c.m, c.U, s, t]) for c, s, t in wb[:3]]
     a = ctx.model.run(sample)
